@@ -8,6 +8,12 @@ From Coq Require Import ZArith List Bool.
 From Common Require Import CxxSem.
 Import ListNotations.
 
+(* statements of aligned_allocator::construct / destroy, as classified by tools/c14gen *)
+Inductive cstmt :=
+| CPlacementCopy      (* new ((void * )p) T(t): copy construction in place, from the second parameter *)
+| CDestroyInPlace     (* p->~T() *)
+| COther.             (* anything else (a branch, memcpy, an assignment ...) *)
+
 Inductive exn := ELengthError | EBadAlloc | EOther.
 Inductive aterm := TReturnNull | TReturnPtr | TThrow (e : exn).
 
